@@ -438,6 +438,9 @@ func (w *world) invariants(last op) (string, string) {
 	if len(w.panics) > 0 {
 		return "panic/" + ev.Normalize(w.panics[0]), w.panics[0]
 	}
+	if err := w.ts.DBIdle(); err != nil {
+		return "database-still-locked/after:" + last.kind, fmt.Sprintf("after the operation has returned the SQLite file is still locked by the teamserver (%v): a statement or result set was left open, later writes will fail", err)
+	}
 	v := w.views()
 	seen := map[string]bool{}
 	for _, n := range v.all {
